@@ -453,7 +453,18 @@ def _sorted(it, fr, a, k):
 
 @builtin("reversed")
 def _reversed(it, fr, a, k):
-    return PyList(list(reversed(it.to_list(a[0]))))
+    src = a[0]
+    if isinstance(src, Obj) and "__data__" in src.fields:
+        src = src.fields["__data__"]
+    if isinstance(src, PyList):
+        # CPython's list_reverseiterator: lazy, reads the LIVE list by a decreasing index and stops when the index is out of range
+        def gen():
+            i = len(src.items) - 1
+            while 0 <= i < len(src.items):
+                yield src.items[i]
+                i -= 1
+        return GenObj(gen(), "list_reverseiterator")
+    return PyList(list(reversed(it.to_list(src))))
 
 
 @builtin("sum")
